@@ -416,7 +416,7 @@ fn run_server(trace: &[TMsg], streams_in: &[StreamSpec], early_wait: usize, sche
     cmds.push(Cmd::Close);
     roles.push(Role::None);
     let mut sc = sched.clone();
-    sc.max_steps = 8_000_000;
+    sc.max_steps = std::cmp::max(8_000_000, sched.max_steps);
     let session = Session { trace: trace.to_vec(), cmds: cmds.clone(), sched: sc, server_max_read, poll_budget: 30_000 };
     let t = run_session(&session, ctx)?;
     // generic protocol consistency first (exactly one reply etc.)
@@ -441,7 +441,14 @@ fn run_server(trace: &[TMsg], streams_in: &[StreamSpec], early_wait: usize, sche
             seen[*i] = true;
         }
         if o.len() != msgs.len() {
-            viol!("sorted-stream-not-permutation", "the unfiltered stream of the sorted file delivered {} of {} messages although parsing finished long ago", o.len(), msgs.len());
+            let missing: Vec<usize> = (0..msgs.len()).filter(|i| !seen[*i]).take(16).collect();
+            let pos_last = o.len().saturating_sub(3);
+            let last_fi = t.events.iter().rev().find_map(|e| if let Ev::FileInfo(n) = e { Some(*n) } else { None });
+            let last_si = t.events.iter().rev().find_map(|e| if let Ev::StreamInfo { id, nr_stream_msgs, processed, total } = e { if Some(*id) == ref_id { Some((*nr_stream_msgs, *processed, *total)) } else { None } } else { None });
+            let n_ev = t.events.len();
+            let pos_last_msgs = t.events.iter().rposition(|e| matches!(e, Ev::Msgs { id, .. } if Some(*id) == ref_id));
+            let dbg = format!("last FileInfo {:?}, last StreamInfo of the stream {:?}, events {}, last frame of the stream at event {:?}", last_fi, last_si, n_ev, pos_last_msgs);
+            viol!("sorted-stream-not-permutation", "the unfiltered stream of the sorted file delivered {} of {} messages although parsing finished long ago (missing indices {:?}..., last delivered {:?}; {})", o.len(), msgs.len(), missing, &o[pos_last..], dbg);
         }
         ctx.probe("sorted_sessions");
         if o.windows(2).any(|w| w[0] > w[1]) {
